@@ -6,6 +6,9 @@ require (
 	github.com/ErdemOzgen/blackdagger v0.0.0
 	github.com/anishathalye/porcupine v1.3.0
 	github.com/go-openapi/loads v0.22.0
+	github.com/robfig/cron/v3 v3.0.1
+	golang.org/x/sys v0.30.0
+	gopkg.in/yaml.v2 v2.4.0
 )
 
 require (
@@ -47,7 +50,6 @@ require (
 	github.com/pelletier/go-toml/v2 v2.2.2 // indirect
 	github.com/pkg/errors v0.9.1 // indirect
 	github.com/rivo/uniseg v0.4.4 // indirect
-	github.com/robfig/cron/v3 v3.0.1 // indirect
 	github.com/sagikazarmark/slog-shim v0.1.0 // indirect
 	github.com/samber/lo v1.38.1 // indirect
 	github.com/samber/slog-multi v1.2.0 // indirect
@@ -62,10 +64,8 @@ require (
 	golang.org/x/exp v0.0.0-20240222234643-814bf88cf225 // indirect
 	golang.org/x/net v0.28.0 // indirect
 	golang.org/x/sync v0.8.0 // indirect
-	golang.org/x/sys v0.30.0 // indirect
 	golang.org/x/text v0.17.0 // indirect
 	gopkg.in/ini.v1 v1.67.0 // indirect
-	gopkg.in/yaml.v2 v2.4.0 // indirect
 	gopkg.in/yaml.v3 v3.0.1 // indirect
 )
 
